@@ -485,11 +485,15 @@ def run_property(prop, tier, jobs, assumptions, level_text, keep=False, only=Non
             inconclusive.append((job, "cbmc error/out of memory: " + rec["error"]))
             ctx.log("CBMC-ERROR", job.name(), rec["error"])
             return
-        n_ok = n_fail = n_reach = 0
+        n_ok = n_fail = n_reach = n_foreign = 0
         fails = []
         for res in results:
             desc = res.get("description", "")
             st = res.get("status")
+            mm = re.match(r"(C\d\d):", desc)
+            if mm and mm.group(1) != prop:
+                n_foreign += 1   # assertion that belongs to another property's check of the same harness
+                continue
             if desc.startswith("REACH:"):
                 if st == "FAILURE":
                     n_reach += 1
@@ -507,6 +511,7 @@ def run_property(prop, tier, jobs, assumptions, level_text, keep=False, only=Non
         rec["properties_proved"] = n_ok
         rec["properties_failed"] = n_fail
         rec["reach_witnesses"] = n_reach
+        rec["assertions_of_other_properties_skipped"] = n_foreign
         rec["status"] = "ok" if not fails else "failed"
         rec["functions"] = len(u["funcs"]["functions"])
         if n_reach == 0:
@@ -516,7 +521,8 @@ def run_property(prop, tier, jobs, assumptions, level_text, keep=False, only=Non
         for res in fails:
             desc = res.get("description", "")
             sl = res.get("sourceLocation", {}) or {}
-            key = (desc, sl.get("file"), sl.get("function"))
+            auto = bool(re.match(r"(dereference failure|memcpy|memmove|memset|free |double free|division by zero|array |unwinding assertion|max allocation|pointer )", desc))
+            key = ("auto", sl.get("file"), sl.get("function"), sl.get("line")) if auto else (desc, sl.get("file"), sl.get("function"))
             kf = match_finding(findings, prop, job, res)
             if kf:
                 known_hits.append((kf, job, res))
